@@ -95,6 +95,7 @@ impl Driver for HubSeq {
         let mut queue: Vec<(u64, u128)> = vec![];                  // (completion time, coins) of running undelegations
         let mut received = [0u128; 3];
         let mut slashed_since_check = false; let mut ever_disturbed = false; let mut donated = false;
+        let mut slash_unrecognised = false;   // a validator was slashed and no handler has run its slashing check since
         let mut seen: BTreeMap<u64, UnbondHistory> = BTreeMap::new();  // released entries, as first seen
         let mut paid_from: BTreeMap<u64, bool> = BTreeMap::new();      // batches some claimant has already been paid from
         let mut c: BTreeMap<String, bool> = BTreeMap::new();
@@ -122,7 +123,7 @@ impl Driver for HubSeq {
                 "withdraw" => Some(call(&mut deps, now, USERS[who], 0, ExecuteMsg::WithdrawUnbonded {})),
                 "check_slashing" => Some(call(&mut deps, now, "anyone", 0, ExecuteMsg::CheckSlashing {})),
                 "wait" => { now += op["dt"].as_u64().unwrap_or(5); user_op = false; None }
-                "slash" => { let pm = op["permille"].as_u64().unwrap_or(1) as u128; for d in deps.querier.delegations.iter_mut() { d.1 -= d.1 * pm / 1000; } if op["queue"].as_bool().unwrap_or(false) { for q in queue.iter_mut() { q.1 -= q.1 * pm / 1000; } } slashed_since_check = true; ever_disturbed = true; user_op = false; None }
+                "slash" => { let pm = op["permille"].as_u64().unwrap_or(1) as u128; for d in deps.querier.delegations.iter_mut() { d.1 -= d.1 * pm / 1000; } if op["queue"].as_bool().unwrap_or(false) { for q in queue.iter_mut() { q.1 -= q.1 * pm / 1000; } } slashed_since_check = true; slash_unrecognised = true; ever_disturbed = true; user_op = false; None }
                 "donate" => { deps.querier.balance += u(&op["amt"]); ever_disturbed = true; donated = true; user_op = false; None }
                 _ => None,
             };
@@ -187,14 +188,17 @@ impl Driver for HubSeq {
             if accepted && (kind == "bond" || kind == "bond_stsei" || kind == "bond_rewards" || kind.starts_with("convert") || kind == "check_slashing") {
                 and(&mut c, "hs#C02.liquid_balance_untouched", queue.len() == queue.len() && deps.querier.balance + 0 == deps.querier.balance && paid == 0);
             }
-            // C04: no user operation lowers a rate (compared only when the books were already consistent with the chain, i.e. no unrecognised slashing)
-            if accepted && user_op && consistent0 && kind != "check_slashing" {
+            // C04: a rate falls only through slashing.  Whenever no validator was slashed since the books last agreed with the chain, no accepted
+            // operation (including the slashing checks the handlers run themselves) may lower a rate
+            if accepted && !slash_unrecognised {
                 let (rb1, rs1) = (uer(st1.total_bond_bsei_amount.u128(), deps.querier.supply_b + cb1.requested_bsei_with_fee.u128()), uer(st1.total_bond_stsei_amount.u128(), deps.querier.supply_s + cb1.requested_stsei.u128()));
                 let live_b = st0.total_bond_bsei_amount.u128() > 0 && deps.querier.supply_b + cb1.requested_bsei_with_fee.u128() > 0 && st1.total_bond_bsei_amount.u128() > 0;
                 let live_s = st0.total_bond_stsei_amount.u128() > 0 && deps.querier.supply_s + cb1.requested_stsei.u128() > 0 && st1.total_bond_stsei_amount.u128() > 0;
                 if live_b { and(&mut c, "hs#C04.bsei_rate_never_falls", rb1 >= rb0); }
                 if live_s { and(&mut c, "hs#C04.stsei_rate_never_falls", rs1 >= rs0); }
             }
+            let _ = consistent0;
+            if accepted && kind != "withdraw" && kind != "update_global" { slash_unrecognised = false; }
             // histories: numbered consecutively; released entries are frozen (C08); time lock (C08)
             let mut hist: Vec<UnbondHistory> = vec![]; let mut id = 1u64;
             while let Ok(h) = read_unbond_history(&deps.storage, id) { hist.push(h); id += 1; }
